@@ -135,7 +135,9 @@ func c13Prepare(root string, s c13setup) string {
 type c13unit struct {
 	Setup  int               `json:"-"`
 	SetupN string            `json:"setup"`
-	Kind   string            `json:"kind"` // crash | EIO | ENOSPC
+	Kind   string            `json:"kind"` // crash | EIO | ENOSPC | EINTR | EAGAIN
+	Dur    string            `json:"duration,omitempty"` // once | twice | thrice | persistent (occurrences K, K..K+1, K..K+2, K+)
+	Fails  int               `json:"failures_inside_the_call,omitempty"`
 	Sys    string            `json:"syscall"`
 	Pos    int               `json:"position_in_call"` // 0-based index among the call's syscalls
 	Occ    int               `json:"occurrence_on_main_thread"`
@@ -378,8 +380,14 @@ func c13CrashAndFaults(r *core.Run) (missing []string) {
 			plan = append(plan, c13unit{Setup: si, SetupN: s.name(), Kind: "crash", Sys: e.Name, Pos: k, Occ: occ})
 			kindsPlanned["crash/"+e.Name] = true
 			if c13FaultTargets[e.Name] {
-				for _, en := range []string{"EIO", "ENOSPC"} {
-					plan = append(plan, c13unit{Setup: si, SetupN: s.name(), Kind: en, Sys: e.Name, Pos: k, Occ: occ})
+				errnos := []string{"EIO", "ENOSPC", "EINTR"}
+				if isWrite(e.Name) {
+					errnos = append(errnos, "EAGAIN")
+				}
+				for _, en := range errnos {
+					for _, dur := range faultDurations {
+						plan = append(plan, c13unit{Setup: si, SetupN: s.name(), Kind: en, Sys: e.Name, Pos: k, Occ: occ, Dur: dur})
+					}
 				}
 				kindsPlanned["fault/"+e.Name] = true
 			}
@@ -394,7 +402,7 @@ func c13CrashAndFaults(r *core.Run) (missing []string) {
 		u := plan[i]
 		s := setups[u.Setup]
 		data := pay1(vData, s.Size)
-		inj := fmt.Sprintf("%s:error=%s:when=%d", u.Sys, u.Kind, u.Occ)
+		inj := fmt.Sprintf("%s:error=%s:when=%s", u.Sys, u.Kind, whenSpec(u.Occ, u.Dur))
 		if u.Kind == "crash" {
 			inj = fmt.Sprintf("%s:signal=KILL:when=%d", u.Sys, u.Occ)
 		}
@@ -425,17 +433,14 @@ func c13CrashAndFaults(r *core.Run) (missing []string) {
 				}
 				u.Child = "(killed before " + u.Sys + ")"
 			} else {
-				at, ok := sr.T.faultLanded(0, u.Sys)
+				_, inCall, rt, ok := sr.T.faultsLanded(0, u.Sys)
 				if !ok || !call.Ended {
 					os.RemoveAll(d)
 					continue
 				}
 				u.Child = call.Result
-				for _, e := range call.Sys {
-					if e.Idx > at.Idx && e.Name == at.Name && e.ok() {
-						retried = true
-					}
-				}
+				u.Fails = len(inCall)
+				retried = rt
 			}
 			u.Landed = true
 			st := treeState(root)
@@ -454,8 +459,22 @@ func c13CrashAndFaults(r *core.Run) (missing []string) {
 			if u.Kind != "crash" && strings.HasPrefix(call.Result, "ok") {
 				if retried {
 					r.Count("faults_retried_successfully", 1)
+					// the statement allows a retry that ends with exactly data,
+					// provided the data was still flushed before the name became
+					// visible: judge the final state and the order, not the retry
 					if which != "new" {
 						u.viol = append(u.viol, pendingViol{"fault-retried-" + u.Sys + "-dest-not-new", "call reported success after retrying but d/f is not data", detail})
+					} else if s.Size > 0 {
+						osig, odetail := c13Order(call, "d/f")
+						switch {
+						case osig == "":
+							r.Count("faults_retried_order_flush_before_publish", 1)
+						case strings.HasPrefix(osig, "?"):
+							r.Inconclusive("order-after-retry-" + osig[1:])
+						default:
+							u.viol = append(u.viol, pendingViol{"fault-retried-" + u.Sys + "-" + osig,
+								fmt.Sprintf("AtomicCreate re-issued a %s that had failed with %s and reported success, but %s", u.Sys, u.Kind, odetail), detail})
+						}
 					}
 				} else {
 					u.viol = append(u.viol, pendingViol{fmt.Sprintf("fault-AtomicCreate-%s-%s-reported-success", u.Sys, u.Kind),
@@ -465,7 +484,10 @@ func c13CrashAndFaults(r *core.Run) (missing []string) {
 				r.Count("faults_surfaced_as_panic", 1)
 			}
 			c13Recover(r, root, s, &u)
-			if ns {
+			// the same-pid recoveries after every crash point and after the
+			// single-occurrence EIO/ENOSPC faults (the leftover tree does not
+			// depend on errno or duration)
+			if ns && (u.Kind == "crash" || (u.Dur == "once" && (u.Kind == "EIO" || u.Kind == "ENOSPC"))) {
 				where := u.Kind + "-at-" + u.Sys
 				c13RecoverIdentity(r, bin, root, childPid(sr.Stderr), preOf(u.Setup), c13RecSizes(s.Size), where,
 					fmt.Sprintf("a %s at %s of AtomicCreate(d,f,%s) (setup %s, the call was number %d of its process)", u.Kind, u.Sys, describe(data, true), s.name(), preOf(u.Setup)+1),
@@ -491,7 +513,11 @@ func c13CrashAndFaults(r *core.Run) (missing []string) {
 				r.Count("faults_landed", 1)
 				r.Count("faults_landed_"+u.Sys, 1)
 			}
-			r.Distinct(fmt.Sprintf("%s/%s/%s#%d@%d", s.name(), u.Kind, u.Sys, u.Occ, u.Pos))
+			r.Distinct(fmt.Sprintf("%s/%s/%s#%d@%d/%s", s.name(), u.Kind, u.Sys, u.Occ, u.Pos, u.Dur))
+			if u.Kind != "crash" {
+				r.Count("faults_landed_duration_"+u.Dur, 1)
+				r.Count("faults_landed_errno_"+u.Kind, 1)
+			}
 		}
 		results[i] = u
 	})
@@ -669,7 +695,7 @@ func runC13(r *core.Run) (bool, string) {
 		"EVERY one of them is then replaced by a SIGKILL before it executes (exhaustive over the file-system syscalls of the call) and d/f must be exactly its previous state or exactly data; " +
 		"then, in copies of the SAME leftover tree, a complete AtomicCreate(d,f,data2) with data2 shorter and (separately) longer than data must leave exactly data2. " +
 		"The interrupted call is the 1st, 2nd or 3rd AtomicCreate of its process (complete calls for another name come first), and every recovery runs in three process identities: a different pid (in-process), and — strace and child started in a fresh PID namespace, where the child always gets the same pid — a process with the SAME pid as the interrupted one making the same number of calls before (same call index) or one more (other call index), each with data2 shorter than, as long as and longer than data; the result must be exactly data2 (the oracle never looks at staging names; recovery_identity_*_created_over_a_preexisting_leftover_* count, from the recovery run's own strace log, the runs whose call opened with O_CREAT a path that the interrupted call had left behind). The same same-pid recoveries follow every partial-write scenario. " +
-		"(b) fault: every open/write/fsync/rename-family syscall of the call fails once with EIO and ENOSPC (exhaustive): the call must not report ok (unless it re-issued the syscall successfully), d/f must be old or new, and the same recovery runs follow. " +
+		"(b) fault: every open/write/fsync/rename-family syscall of the call fails with EIO, ENOSPC, EINTR (write family: also EAGAIN), each for exactly that occurrence, for occurrences K..K+1, K..K+2 and for every occurrence from K on (exhaustive): the call must not report ok unless it re-issued the syscall successfully — and then d/f must be exactly data and the recorded order must still show a successful flush of the staging descriptor after its last write and before the publishing rename; d/f must be old or new, and the recovery runs follow (the same-pid ones after the single-occurrence EIO/ENOSPC faults). " +
 		"(c) order, on each recorded successful call with non-empty data: a successful fsync/fdatasync of the staging descriptor (the descriptor returned by the open of the path later renamed onto d/f) after its last write and before the rename; writing d/f in place is a violation. " +
 		"(d) concurrency in a child process (library panics recovered per call; a fatal error kills only the child): 1-4 creators x 1-4 readers (Open+ReadAt of the whole file, List every 4th iteration) on one file, and creator pairs on (same dir, different names), (different dirs, same name), (same dir, same name) started together each round, on DirFs and MemFs; " +
 		"payloads are a 4-byte version token repeated to a version-specific length: a reader/final check must see exactly one complete written version. " +
@@ -681,13 +707,22 @@ func runC13(r *core.Run) (bool, string) {
 	r.Assume("MemFs readers do not Close (MemFs descriptors are inode numbers shared between openers — subject of C12); a DirFs List that misses the destination is counted inconclusive because List is documented as non-atomic")
 	r.Assume("a process in a fresh PID namespace with the pid of the interrupted process stands for a restarted pid-1 daemon, an exec or a reused pid; if PID namespaces are unavailable the same-pid layers are reported inconclusive")
 	r.Assume("crash enumeration starts from trees without leftover staging files; leftovers are exercised by the recovery calls that follow every crash/fault point")
+	t0 := time.Now()
+	phase := func(name string) {
+		r.Set("phase_wall_seconds_"+name, float64(int(time.Since(t0).Seconds()*10))/10)
+		t0 = time.Now()
+	}
 	missing := c13CrashAndFaults(r)
+	phase("crash_and_faults")
 	c13PartialWrite(r)
+	phase("partial_write")
 	c13Concurrency(r)
+	phase("concurrency")
 	c13LinksAndDescriptors(r)
+	phase("links_and_descriptors")
 	notLanded := r.GetCount("fault_points_not_landed")
 	r.Set("exhaustive", notLanded == 0 && r.GetCount("crash_points_landed") > 0)
-	r.Set("exhaustive_parts", []string{"crash point before every file-system syscall of the call, for each of the (size,destination) setups", "single failure (EIO, ENOSPC) of every open/write/fsync/rename syscall of the call, for each setup"})
+	r.Set("exhaustive_parts", []string{"crash point before every file-system syscall of the call, for each of the (size,destination) setups", "failure of every open/write/fsync/rename syscall of the call with EIO, ENOSPC, EINTR (write: also EAGAIN) x duration {K, K..K+1, K..K+2, K+}, for each setup"})
 	if r.GetCount("crash_points_landed") < 14 || r.GetCount("faults_landed") < 20 {
 		return false, fmt.Sprintf("only %d crash points and %d faults landed", r.GetCount("crash_points_landed"), r.GetCount("faults_landed"))
 	}
